@@ -27,6 +27,9 @@ func genOpGrammar(r *rng) (*gSpec, *opTable) {
 	g := &gSpec{}
 	t := &opTable{}
 	e := gRule{name: "e"}
+	// the numbers written in the grammar: the levels shifted by an offset (so that 8, 9, 10 occur) and written in
+	// decimal with or without leading zeros — "010" is ten
+	offset := pick(r, []int{0, 0, 7, 6})
 	for i := 0; i < nops; i++ {
 		g.tokens = append(g.tokens, fmt.Sprintf("OP%d", i))
 		lv := 1 + i%nlev
@@ -35,9 +38,10 @@ func genOpGrammar(r *rng) (*gSpec, *opTable) {
 		}
 		t.level = append(t.level, lv)
 		t.right = append(t.right, levRight[lv])
-		q := fmt.Sprintf("@left(%d)", lv)
+		num := fmt.Sprintf(pick(r, []string{"%d", "%d", "%03d", "%02d"}), lv+offset)
+		q := "@left(" + num + ")"
 		if levRight[lv] {
-			q = fmt.Sprintf("@right(%d)", lv)
+			q = "@right(" + num + ")"
 		}
 		e.prods = append(e.prods, gProd{terms: []gTerm{{kind: 1, name: "e"}, {kind: 0, name: g.tokens[i]}, {kind: 1, name: "e"}}, qual: q})
 	}
